@@ -26,7 +26,7 @@ func runC14(c *core.Ctx) {
 	c.Rule("R1", "no in-band sentinel on unsigned locals in the range builders", 2)
 	c.Rule("R3", "k-way merge: an ended sequence never beats a live one holding the end marker's value (2^32-1 is a token)", 1)
 	c.Rule("R4", "arithmetic on 32-bit keys/tokens in lookup and range code is confined to the reviewed shapes and site counts; guarded sites keep their guard", 4)
-	c.Rule("R5", "token lists fed to the k-way merge are sorted by both producers", 2)
+	c.Rule("R5", "token lists fed to the k-way merge are sorted by both producers, nobody else feeds it, and the partition token list is sorted where it is built", 4)
 	c.Rule("R6", "the token→instance map shared between a ring and its subrings is immutable (shared with C13.R7)", 1)
 	c.Rule("R7", "no selection loop over tokens starts from the extreme value of the domain as 'nothing selected'", 1)
 	c.Rule("R8", "the partition lookup the ranges are measured against returns the id at the position whose active flag it tested (shared with C15.R6)", 2)
@@ -379,6 +379,24 @@ func c14Arithmetic(c *core.Ctx, pkg *packages.Package) {
 // walk) sort an instance's tokens unless sort.IsSorted says they are — descriptors written by older
 // versions may hold unsorted tokens — so the two lists always agree.
 func c14SortedInputs(c *core.Ctx, pkg *packages.Package) {
+	// census: the k-way merge (which needs sorted inputs) is fed by the two analysed producers only
+	{
+		var callers []string
+		okAll := true
+		for _, f := range an.Funcs(pkg) {
+			for _, callee := range []string{"MergeTokens", "MergeTokensByZone"} {
+				for range f.CallsTo(true, "ring", callee) {
+					name := an.FuncDisplay(f.Obj)
+					callers = append(callers, name)
+					if name != "(*Desc).GetTokens" && name != "(*Desc).getTokensByZone" && !(callee == "MergeTokens" && name == "MergeTokensByZone") {
+						okAll = false
+					}
+				}
+			}
+		}
+		c.Check(okAll && len(callers) >= 2, "R5", "census:MergeTokens", pkg.Syntax[0].Pos(), fmt.Sprintf("MergeTokens / MergeTokensByZone are called by %v (only the producers whose inputs are shown sorted below)", callers), len(callers))
+	}
+	c14PartitionTokensSorted(c, pkg, "R5")
 	for _, name := range []string{"Desc.GetTokens", "Desc.getTokensByZone"} {
 		fn := an.FindFunc(pkg, name)
 		if fn == nil {
@@ -666,4 +684,48 @@ func c14Pending(c *core.Ctx, fn *an.Fn) {
 		}
 	}
 	_ = info
+}
+
+// c14PartitionTokensSorted: the partition ring's binary search runs over PartitionRingDesc.tokens(), which
+// must be sorted whatever order the descriptor's per-partition lists are in: every return hands back a
+// slice that a sort call (slices.Sort / sort.Sort / sort.Slice on that very slice) has just sorted.
+func c14PartitionTokensSorted(c *core.Ctx, pkg *packages.Package, R string) {
+	fn := an.FindFunc(pkg, "PartitionRingDesc.tokens")
+	if fn == nil {
+		c.Miss(R, "func=PartitionRingDesc.tokens", "not found")
+		return
+	}
+	c.Analysed(fn.String())
+	g := fn.Graph()
+	var bad []string
+	n := 0
+	for _, b := range g.Blocks {
+		r := an.ReturnOf(b)
+		if r == nil || len(r.Results) != 1 {
+			continue
+		}
+		n++
+		id, ok := an.Unparen(r.Results[0]).(*ast.Ident)
+		sorted := false
+		if ok {
+			for _, call := range fn.Calls(false) {
+				if (call.Is("slices", "Sort") || call.Is("sort", "Sort") || call.Is("sort", "Slice") || call.Is("sort", "Stable")) && len(call.Expr.Args) >= 1 {
+					if aid, isID := an.Unparen(call.Expr.Args[0]).(*ast.Ident); isID && fn.ObjOf(aid) == fn.ObjOf(id) && g.NodeBefore(call.Expr, r) {
+						// nothing is appended between the sort and the return
+						later := false
+						for _, ap := range fn.CallsTo(false, "", "append") {
+							if ap.Expr.Pos() > call.Expr.Pos() {
+								later = true
+							}
+						}
+						sorted = !later
+					}
+				}
+			}
+		}
+		if !sorted {
+			bad = append(bad, fmt.Sprintf("return %s (line %d)", fn.Canon(r.Results[0]), c.Prog.Fset.Position(r.Pos()).Line))
+		}
+	}
+	c.Check(n > 0 && len(bad) == 0, R, "func=PartitionRingDesc.tokens:sorted", fn.Pos(), fmt.Sprintf("%d returns, each a slice sorted in this function just before: %v", n, bad), n)
 }
